@@ -17,6 +17,9 @@ pub enum Load {
     SdnAlways,
     /// an SDN telegram with a 240 byte payload at every opportunity (long own transmissions)
     SdnLong,
+    /// low-priority traffic only: an SDN telegram at every ordinary opportunity, nothing when the station
+    /// offers a high-priority-only message cycle
+    SdnLowOnly,
     /// an SRD request to `dest` at every opportunity
     SrdAlways(u8),
     /// an SRD request to `dest` at every third opportunity
@@ -31,15 +34,25 @@ pub struct TrafficApp {
     pub replies: u64,
     pub timeouts: u64,
     pub fcb: bool,
+    /// times (µs) of the calls that were NOT high-priority-only (the last 4096)
+    pub normal_calls: Vec<i64>,
 }
 
 impl FdlApplication for TrafficApp {
-    fn transmit_telegram(&mut self, _now: Instant, fdl: &FdlActiveStation, tx: TelegramTx, _hp: HighPrioOnly) -> Option<TelegramTxResponse> {
+    fn transmit_telegram(&mut self, now: Instant, fdl: &FdlActiveStation, tx: TelegramTx, hp: HighPrioOnly) -> Option<TelegramTxResponse> {
         self.calls += 1;
+        let hp_only = matches!(hp, HighPrioOnly::Yes);
+        if !hp_only {
+            if self.normal_calls.len() >= 4096 {
+                self.normal_calls.remove(0);
+            }
+            self.normal_calls.push(now.total_micros() as i64);
+        }
         let sa = fdl.parameters().address;
         match self.load {
             Load::None => None,
-            Load::SdnAlways => {
+            Load::SdnLowOnly if hp_only => None,
+            Load::SdnAlways | Load::SdnLowOnly => {
                 self.sent += 1;
                 Some(tx.send_data_telegram(
                     DataTelegramHeader { da: 127, sa, dsap: Some(58), ssap: Some(62), fc: FunctionCode::Request { fcb: FrameCountBit::Inactive, req: RequestType::SdnLow } },
@@ -107,6 +120,8 @@ pub struct W3Cfg {
     pub horizon_us: i64,
     /// ring predicates are sampled from here on
     pub converge_by_us: i64,
+    /// PHY model: stations are deaf while they transmit (see BusSim)
+    pub deaf_phy: bool,
 }
 
 impl W3Cfg {
@@ -115,7 +130,7 @@ impl W3Cfg {
             "stations": self.stations.iter().map(|s| json!({"addr": s.addr, "join_us": s.join_us, "div": s.div, "phase3": s.phase3, "load": format!("{:?}", s.load), "crash": s.crash.map(|(t, r)| json!([t, r]))})).collect::<Vec<_>>(),
             "hsa": self.hsa, "gap": self.gap, "ttr": self.ttr, "baud": self.baud, "slot_bits": self.slot_bits,
             "stalls": self.stalls, "faults": self.faults.iter().map(|(i, f)| json!([i, format!("{:?}", f)])).collect::<Vec<_>>(),
-            "responders": self.responders, "horizon_us": self.horizon_us, "converge_by_us": self.converge_by_us,
+            "responders": self.responders, "horizon_us": self.horizon_us, "converge_by_us": self.converge_by_us, "deaf_phy": self.deaf_phy,
         })
     }
     pub fn from_json(v: &Value) -> W3Cfg {
@@ -126,6 +141,8 @@ impl W3Cfg {
                 Load::SdnAlways
             } else if s == "SdnLong" {
                 Load::SdnLong
+            } else if s == "SdnLowOnly" {
+                Load::SdnLowOnly
             } else {
                 let n: u8 = s.trim_end_matches(')').split('(').nth(1).unwrap().parse().unwrap();
                 if s.starts_with("SrdAlways") {
@@ -171,6 +188,7 @@ impl W3Cfg {
             responders: v["responders"].as_array().unwrap().iter().map(|x| (x[0].as_u64().unwrap() as u8, x[1].as_u64().unwrap() as u32)).collect(),
             horizon_us: v["horizon_us"].as_i64().unwrap(),
             converge_by_us: v["converge_by_us"].as_i64().unwrap(),
+            deaf_phy: v["deaf_phy"].as_bool().unwrap_or(false),
         }
     }
     pub fn params(&self, addr: u8) -> profirust::fdl::Parameters {
@@ -253,6 +271,7 @@ impl W3Run {
         let n = cfg.stations.len();
         let slot = cfg.slot_us();
         let mut bus = BusSim::new(BAUDS[cfg.baud].1, n + 1);
+        bus.deaf_while_transmitting = cfg.deaf_phy;
         bus.retire_port(n as u8);
         bus.faults = cfg.faults.clone();
         let mut stations = vec![];
@@ -261,7 +280,7 @@ impl W3Run {
         let mut next_poll = vec![];
         for s in &cfg.stations {
             stations.push(FdlActiveStation::new(cfg.params(s.addr)));
-            apps.push(TrafficApp { load: s.load, calls: 0, sent: 0, replies: 0, timeouts: 0, fcb: false });
+            apps.push(TrafficApp { load: s.load, calls: 0, sent: 0, replies: 0, timeouts: 0, fcb: false, normal_calls: vec![] });
             let p = (slot / s.div).max(1);
             period.push(p);
             next_poll.push(s.phase3 * p / 3);
